@@ -271,7 +271,8 @@ def run_clean(ctx) -> RuleResult:
     # remove_redundant_names
     func = ctx.repo.function(modname, "remove_redundant_names")
     assigns = [n for n in ast.walk(func) if isinstance(n, ast.Assign) and isinstance(n.targets[0], ast.Name)
-               and n.targets[0].id == "indices"]
+               and isinstance(n.value, ast.Call) and (ctx.dotted(module, n.value.func) or "") in ("numpy.any", "numpy.all", "numpy.sum")]
+    mask_var = assigns[0].targets[0].id if assigns else "?"
     ok = False
     text = ""
     if assigns:
@@ -286,7 +287,7 @@ def run_clean(ctx) -> RuleResult:
     if not ok:
         result.add(Finding("R-CLEAN", module, "remove_redundant_names", assigns[0] if assigns else func,
                            f"the used-name mask is '{text}', expected numpy.any(exponents != 0, 0)"))
-    guard = [n for n in ast.walk(func) if isinstance(n, ast.If) and "indices" in U(n.test) and isinstance(n.test, ast.UnaryOp)]
+    guard = [n for n in ast.walk(func) if isinstance(n, ast.If) and mask_var in U(n.test) and isinstance(n.test, ast.UnaryOp)]
     ok = bool(guard) and any(isinstance(s, ast.Assign) and "True" in U(s) for s in guard[0].body)
     result.ob("at least one indeterminate always survives", ok, module.loc(func), "")
     if not ok:
@@ -348,14 +349,18 @@ def run_power(ctx) -> RuleResult:
         if not ok:
             result.add(Finding("R-POWER", module, "power", step.node.iter,
                                f"the multiplication loop runs over {text[:80]}, not range(<exponent>)"))
-        init = step.vars.get("out")
+        acc = None
+        for stmt in step.node.body:
+            if isinstance(stmt, ast.Assign) and isinstance(stmt.targets[0], ast.Name):
+                acc = stmt.targets[0].id
+        init = step.vars.get(acc) if acc else None
         ok = init is not None and "numpy.ones(" in _txt(init) and "[(0,)]" in _txt(init).replace(" ", "").replace("[(0,)]", "[(0,)]")
         result.ob("the product starts from the constant polynomial one", bool(ok), where, _txt(init)[:80] if init is not None else "")
         if not ok:
             result.add(Finding("R-POWER", module, "power", step.node,
                                "the running product is not initialised with the constant one", construct="power: init"))
         body_calls = [c for s in step.node.body for c in calls_in(s) if (ctx.dotted(module, c.func) or "").endswith(".multiply")]
-        ok = len(body_calls) == 1 and len(body_calls[0].args) >= 2 and U(body_calls[0].args[0]) == "out" and U(body_calls[0].args[1]) == params[0]
+        ok = len(body_calls) == 1 and len(body_calls[0].args) >= 2 and U(body_calls[0].args[0]) == acc and params[0] in U(step.expand(body_calls[0].args[1]))
         result.ob("each step multiplies the running product by the base", ok, where, "")
         if not ok:
             result.add(Finding("R-POWER", module, "power", step.node,
